@@ -30,6 +30,16 @@ CHECKS = {
    text="Same generated histories as C04 plus exit requests (through mystic._signal.Handler with input patched) and limit pairs incl. 0, 1, None, new=True/False. A Python model keeps the absolute limits as documented; before every Step it decides from its own counts whether the solver must refuse to start (limit reached, termination true, exit requested): then no cost call, no callback and a message; otherwise exactly one iteration. Solve runs under a callback guard (must return within the model's generation limit); stop messages must name a condition true of the final state. Exploration only; 'Solve always returns' is a bounded check.",
    note="Trusted: the model's reading of SetEvaluationLimits (new=True counts from the call; None = nDim*nPop*scale, counted from the solver's next look at its limits when new), termination conditions themselves (checked by C10), the recorder.",
    design="DESIGN.md section 5, C05"),
+ 'C06': dict(
+   technique="property-based testing (Hypothesis @given), differential/metamorphic oracle: the same generated configuration run uninterrupted vs checkpointed-restored-continued, compared snapshot by snapshot for exact equality",
+   text="Generated (configuration, interruption generation k, continuation length m, restore path) tuples for DE, DE2, Nelder-Mead, Powell with bounds, catalog constraints (incl. symbolic-generated and in-place), mystic penalties, plain/verbose/logging monitors and save frequencies; restore paths SaveSolver->LoadSolver, periodic SetSaveFrequency dump->LoadSolver (file bytes copied at once), dill dumps/loads and copy.deepcopy. With the RNG states captured at the checkpoint restored, every snapshot of the continued solver (populations, energies, best, counters, both monitors, energy history) must equal the uninterrupted run's exactly; advancing the restored/copied solver must leave the original's snapshot unchanged and vice versa, and the copy's evaluation counter must grow by exactly the calls made while it is stepped. Exploration only.",
+   note="Trusted: dill; the recorder shared through a registry (calls attributed by deltas); 'same random-generator state' = python random + numpy.random global states. A periodic dump is compared from the generation it holds.",
+   design="DESIGN.md section 5, C06"),
+ 'C07': dict(
+   technique="property-based testing (Hypothesis @given), metamorphic oracle: permuted/duplicated Set* calls and harness-owned maps (serial, reversed, shuffled, threaded, forked) must give trajectories exactly equal to the canonical order / python_map",
+   text="Three generated metamorphic relations, all comparing complete trajectories (snapshot after every Step) exactly: (order/dup) the configuration's Set* calls in a drawn permutation with the initial-points call at a drawn position (RNG reseeded right before it only) and setters optionally repeated vs the canonical order; (map) DE2 under harness-owned maps that evaluate in reversed/shuffled order, in threads or in forked processes vs python_map; (ensemble) Lattice/Buckshot with Nelder-Mead/Powell members under each map and in step-wise vs run-to-completion mode (best, per-member bests, per-member and total evaluations, iterations). Exploration only.",
+   note="Trusted: the harness maps return results in index order (the map contract); thread/process schedules are sampled by the OS. Open known finding F21 (tight=True ranges draw from the global random stream).",
+   design="DESIGN.md section 5, C07"),
  'C10': dict(
    technique="property-based testing (Hypothesis @given): generated fake solver states x generated And/Or/When trees, checked against the documented inequalities evaluated directly and recursive all/any",
    text="Generated-input search: every built-in condition is compared with its documented inequality (three-valued oracle; undecided inf-inf cases excluded and counted) on generated histories incl. plateaus, ties, +-inf, windows 0/None/longer than the history and tolerances exactly on the boundary; And/Or/When trees to depth 4 are compared with recursive all/any, info strings must name exactly satisfied leaves, and every leaf is rebuilt from type()/state() and must behave identically. Exploration only: held on all generated cases, no proof of absence.",
